@@ -98,9 +98,11 @@ impl MT205 {
         // Parse optional Field 33B
         let instructed_amount = parser.parse_optional_field::<Field33B>("33B")?;
 
-        // Parse optional fields
+        // Field 52a (ordering institution) is mandatory in MT205
         let ordering_institution =
-            parser.parse_optional_variant_field::<Field52OrderingInstitution>("52")?;
+            Some(parser.parse_variant_field::<Field52OrderingInstitution>("52")?);
+
+        // Parse optional fields
         let senders_correspondent = parser.parse_optional_variant_field::<Field53>("53")?;
         let receivers_correspondent = parser.parse_optional_variant_field::<Field54>("54")?;
         let intermediary = parser.parse_optional_variant_field::<Field56>("56")?;
